@@ -1,7 +1,7 @@
 (* C16 - Static files: only contents from inside the document root, exact byte ranges.
    Only statements here; proofs live in Proofs/StaticPathP.v and Proofs/RangesP.v. *)
 From Coq Require Import List ZArith NArith Bool.
-From Circ Require Import Model.StaticPath Model.Ranges Proofs.StaticPathP Proofs.RangesP.
+From Circ Require Import Model.StaticPath Model.Ranges Model.FrontEnd Proofs.StaticPathP Proofs.RangesP Proofs.FrontEndP.
 Import ListNotations.
 
 (* Whatever Static answers with (a file, the notfound of serve_file, a directory listing) is
@@ -93,6 +93,78 @@ Theorem C16_range_beyond : forall ds de a cl,
 Proof. exact range_beyond_416. Qed.
 Print Assumptions C16_range_beyond.
 
+(* ---- behind the HTTP front end ---- *)
+
+(* The composition request-line parser -> Request/URL.sanitize -> redirect guard -> Static, for every
+   raw request target, every parser, EVERY pair of functions in the place of urllib.parse.quote/unquote,
+   every file system, decoding function, mount, absolute root: if anything is served, then the parser
+   produced a path, the front end fired the request event with exactly that path, the path is ASCII and
+   canonical (equal to its sanitised form, or its quoted form is), and the location served is inside
+   the document root in the sense of C16_contained. *)
+Theorem C16_frontend_contained :
+  forall (quote unquote : str -> str) (parse_target : str -> option str)
+         (fexists isfile isdir : str -> bool) (unq : str -> str)
+         (mount : option str) (d : str) (defaults : list str) (dirlisting : bool) (target loc : str),
+  starts_slash d = true -> Forall plain defaults ->
+  served (http_static_target quote unquote parse_target fexists isfile isdir unq
+                             mount d defaults dirlisting target) = Some loc ->
+  (exists path, parse_target target = Some path /\
+     frontend quote unquote path = FeDispatch path /\ is_ascii path = true /\
+     (path = sanitized quote unquote path \/ quote path = sanitized quote unquote path)) /\
+  (starts_slash loc = true /\ exists rest, comps_of loc = comps_of d ++ rest /\ Forall plain rest).
+Proof. exact http_static_target_contained. Qed.
+Print Assumptions C16_frontend_contained.
+
+(* a redirected (non-canonical) or rejected request is answered without any question to the file system *)
+Theorem C16_frontend_redirect_no_access :
+  forall (quote unquote : str -> str) mount d defaults dirlisting path,
+  (forall p, frontend quote unquote path <> FeDispatch p) ->
+  forall fexists isfile isdir unq,
+  http_static quote unquote fexists isfile isdir unq mount d defaults dirlisting path = Pass.
+Proof. exact http_static_redirect_no_access. Qed.
+Print Assumptions C16_frontend_redirect_no_access.
+
+(* URL.abspath leaves no '.' and no '..' segment, whatever the input *)
+Theorem C16_abspath_no_dot_segments : forall path,
+  Forall (fun p => is_dot p = false /\ is_dotdot p = false) (split_slash (url_abspath path)).
+Proof. exact abspath_segments_nodot. Qed.
+Print Assumptions C16_abspath_no_dot_segments.
+
+(* hence: a path dispatched because it EQUALS its sanitised form has no '.' or '..' segment, provided
+   re-encoding leaves the normalised path alone (quote (unquote a) = a: no escapes to redo) *)
+Theorem C16_canonical_no_dot_segments : forall (quote unquote : str -> str) path,
+  let a := url_abspath (split_params (SL :: path)) in
+  quote (unquote a) = a -> path = sanitized quote unquote path ->
+  Forall (fun p => is_dot p = false /\ is_dotdot p = false) (split_slash path).
+Proof. exact canonical_no_dot_segments. Qed.
+Print Assumptions C16_canonical_no_dot_segments.
+
+(* ---- whole Range headers: several specs, optional white space, any spelling of the unit ---- *)
+
+(* For every header  unit "=" spec , spec , ...  whose unit reads "bytes" (any case, white space
+   around) and whose specs are  ws* digits* "-" digits* ws*, get_ranges is exactly the left-to-right
+   RFC reading sem_loop followed by the length-spread rejection *)
+Theorem C16_range_multi : forall unit ts cl,
+  str_eqb (map lower_ascii (strip_ws unit)) BYTES = true -> ~ In EQ unit ->
+  ts <> [] -> Forall wf_tspec ts ->
+  get_ranges (Some (unit ++ EQ :: join_comma (map render ts))) cl = finish (sem_loop cl ts []).
+Proof. exact range_multi_exact. Qed.
+Print Assumptions C16_range_multi.
+
+(* and that reading is: None as soon as one spec is invalid (last < first with a satisfiable first
+   position, or a bare "-"); otherwise the clamped satisfiable slices in request order, first
+   occurrences only ([] -> 416) *)
+Theorem C16_range_multi_reading : forall cl ts acc,
+  sem_loop cl ts acc =
+  if existsb (is_invalid cl) ts then RIgnore else RList (dedup_from acc (slices cl ts)).
+Proof. exact sem_loop_spec. Qed.
+Print Assumptions C16_range_multi_reading.
+
+Theorem C16_range_dedup : forall l acc, NoDup acc ->
+  NoDup (dedup_from acc l) /\ forall x, In x (dedup_from acc l) <-> In x acc \/ In x l.
+Proof. exact dedup_spec. Qed.
+Print Assumptions C16_range_dedup.
+
 (* non-vacuity *)
 Open Scope N_scope.
 Definition ex_root : str := [47; 114].                        (* "/r" *)
@@ -127,3 +199,26 @@ Example C16_ex_multi :         (* bytes=0-1,8-9 on "0123456789" *)
   serve_range true (Some [98; 121; 116; 101; 115; 61; 48; 45; 49; 44; 56; 45; 57]) [48; 49; 50; 51; 52; 53; 54; 55; 56; 57]
   = Multi 10%Z [(0%Z, 2%Z, [48; 49]); (8%Z, 10%Z, [56; 57])].
 Proof. vm_compute. reflexivity. Qed.
+Definition ex_id (s : str) : str := s.
+Example C16_ex_frontend_redirect :   (* "/a/../b" -> 301 to "/b"; "/a.txt" is handed on; "/caf\u00e9" makes Request() raise *)
+  frontend ex_id ex_id [47; 97; 47; 46; 46; 47; 98] = FeRedirect [47; 98] /\
+  frontend ex_id ex_id [47; 97; 46; 116; 120; 116] = FeDispatch [47; 97; 46; 116; 120; 116] /\
+  frontend ex_id ex_id [47; 233] = FeError /\
+  sanitized ex_id ex_id [47; 97; 59; 120; 47; 98; 59; 121] = [47; 97; 59; 120; 47; 98] /\   (* "/a;x/b;y" -> "/a;x/b" *)
+  url_abspath [47; 47; 97; 47; 46] = [47; 97; 47; 47].                                            (* "//a/." -> "/a//" *)
+Proof. vm_compute. repeat split; reflexivity. Qed.
+Example C16_ex_frontend_served :     (* through the front end: "/b" is served from /r/b, "/../x" is not *)
+  http_static ex_id ex_id ex_fs ex_fs (fun _ => false) (fun s => s) None ex_root [] false [47; 98] = File [47; 114; 47; 98] /\
+  http_static ex_id ex_id ex_fs ex_fs (fun _ => false) (fun s => s) None ex_root [] false [47; 46; 46; 47; 120] = Pass.
+Proof. vm_compute. split; reflexivity. Qed.
+Definition ex_specs : list tspec :=     (* " 0-1 " , "8-9" , "0-1" , "5-" , "-3" *)
+  [ {| w1 := [32]; sd := [48]; ed := [49]; w2 := [32] |}; {| w1 := []; sd := [56]; ed := [57]; w2 := [] |};
+    {| w1 := []; sd := [48]; ed := [49]; w2 := [] |};     {| w1 := []; sd := [53]; ed := []; w2 := [] |};
+    {| w1 := []; sd := []; ed := [51]; w2 := [] |} ].
+Example C16_ex_multi_header :
+  join_comma (map render ex_specs) = [32; 48; 45; 49; 32; 44; 56; 45; 57; 44; 48; 45; 49; 44; 53; 45; 44; 45; 51] /\
+  sem_loop 10 ex_specs [] = RList [(0, 2)%Z; (8, 10)%Z; (5, 10)%Z; (7, 10)%Z] /\
+  get_ranges (Some ([32; 66; 121; 116; 101; 115] ++ EQ :: join_comma (map render ex_specs))) 10   (* " Bytes= 0-1 ,8-9,0-1,5-,-3" *)
+  = RList [(0, 2)%Z; (8, 10)%Z; (5, 10)%Z; (7, 10)%Z] /\
+  forallb (fun t => forallb is_ws (w1 t) && all_digits (sd t) && all_digits (ed t) && forallb is_ws (w2 t)) ex_specs = true.
+Proof. vm_compute. repeat split; reflexivity. Qed.
